@@ -54,3 +54,21 @@ Theorem C09_sign_change_exists :
   let gs := [mk_grp (-1) 4 4 0 true; mk_grp 1 10 10 0 true] in 0 < Qfolded gs 0 /\ Qfolded gs 14 <= 0.
 Proof. exact sign_change_exists. Qed.
 Print Assumptions C09_pi_folded_is_root.
+
+(* strict versions.  A group with a non-zero formal charge loses charge STRICTLY as the pH rises; the total curves never
+   increase, and decrease strictly once one titratable group carries a charge — so each curve has at most one zero and
+   the isoelectric point that get_pi brackets is THE zero, not one of several *)
+Theorem C09_charge_strictly_decreases : forall q pk ph1 ph2, q <> 0 -> ph1 < ph2 -> charge q pk ph2 < charge q pk ph1.
+Proof. exact charge_strict. Qed.
+Theorem C09_total_curves_never_increase : forall (gs : list (grp R)) ph1 ph2, ph1 <= ph2 ->
+  Qfolded gs ph2 <= Qfolded gs ph1 /\ Qunfolded gs ph2 <= Qunfolded gs ph1.
+Proof. intros gs ph1 ph2 H. split; [exact (Qfolded_antitone gs ph1 ph2 H) | exact (Qunfolded_antitone gs ph1 ph2 H)]. Qed.
+Theorem C09_total_curves_strictly_decrease : forall (gs : list (grp R)) ph1 ph2,
+  List.Exists (fun g => grp_charge g <> 0) (filter (fun g => grp_titratable g) gs) -> ph1 < ph2 ->
+  Qfolded gs ph2 < Qfolded gs ph1 /\ Qunfolded gs ph2 < Qunfolded gs ph1.
+Proof. intros gs ph1 ph2 Hex H. split; [exact (Qfolded_strict gs ph1 ph2 Hex H) | exact (Qunfolded_strict gs ph1 ph2 Hex H)]. Qed.
+Theorem C09_isoelectric_point_unique : forall (gs : list (grp R)) x y,
+  List.Exists (fun g => grp_charge g <> 0) (filter (fun g => grp_titratable g) gs) ->
+  (Qfolded gs x = 0 -> Qfolded gs y = 0 -> x = y) /\ (Qunfolded gs x = 0 -> Qunfolded gs y = 0 -> x = y).
+Proof. intros gs x y Hex. split; apply zero_unique; intros a b; [apply Qfolded_strict | apply Qunfolded_strict]; exact Hex. Qed.
+Print Assumptions C09_isoelectric_point_unique.
